@@ -3,6 +3,7 @@
 //   - iteration by iteration through the block/verif_export.go hooks (getPendingHeaders, submitHeadersToDA,
 //     createSignedDataToSubmit, submitDataToDA), and
 //   - as the unmodified HeaderSubmissionLoop / DataSubmissionLoop goroutines,
+//
 // everything inside testing/synctest bubbles (virtual time: the backoff sleeps are real timers),
 // against a scripted DA double (the only collaborator that is a double besides executor and sequencer)
 // which records every SubmitWithOptions call and answers from an outcome script.  Restart = NewManager on
